@@ -3,6 +3,7 @@ package c08
 import (
 	"bufio"
 	"fmt"
+	"os"
 	"sort"
 	"strconv"
 	"strings"
@@ -91,10 +92,31 @@ func (r *sreg) fire() {
 		}
 		return
 	}
-	due := r.rBase.Add(time.Duration(r.after+int(k)*r.interval) * time.Millisecond)
-	if now.Before(due.Add(-(tickMs + 1) * time.Millisecond)) {
+	if tooMany(r.rBase, r.after, r.interval, now, k+1) {
 		r.early.Store(true)
+		if p := os.Getenv("C08_DEBUG_FILE"); p != "" {
+			if f, err := os.OpenFile(p, os.O_APPEND|os.O_CREATE|os.O_WRONLY, 0o644); err == nil {
+				fmt.Fprintf(f, "early: name %d firing#%d after=%d interval=%d total=%d vBase=%d since-reg=%v\n", r.name, k+1, r.after, r.interval, r.total, r.vBase, now.Sub(r.rBase))
+				f.Close()
+			}
+		}
 	}
+}
+
+// tooMany is the order-independent form of "not early": by the time `now` a task registered at
+// `base` (wall clock, read just before the registration call) may have started at most as many
+// firings as it has due times base+after+i*interval that are no more than one tick (+1 ms of
+// millisecond truncation) ahead. Counting instead of indexing matters because the library starts a
+// goroutine per firing: when it catches up after a delay two firings can overtake each other, and
+// "the k-th callback to arrive" need not be the k-th firing.
+func tooMany(base time.Time, after, interval int, now time.Time, started int64) bool {
+	slack := time.Duration(tickMs+1) * time.Millisecond
+	d := now.Add(slack).Sub(base) - time.Duration(after)*time.Millisecond
+	if d < 0 {
+		return started > 0
+	}
+	allowed := int64(d/(time.Duration(interval)*time.Millisecond)) + 1
+	return started > allowed
 }
 
 type schedRunner struct {
